@@ -374,6 +374,14 @@ Theorem C16_shutdown_handler_can_finish :
 Proof. exact handler_can_finish. Qed.
 Print Assumptions C16_shutdown_handler_can_finish.
 
+Example C16_shutdown_handler_can_finish_nonvacuous :
+  exists m0 m1, conc_step true (conc_init conc_three) CAcquire = Some m1 /\ held m0 m1 /\
+                sh_len m0 <= length (sh_arr m0) /\ sh_done m1 = false /\ sh_len m0 - sh_idx m1 = 3.
+Proof.
+  eexists. eexists. split; [reflexivity|]. split; [apply (acquire_held (conc_init conc_three)); reflexivity|].
+  vm_compute. repeat split; auto.
+Qed.
+
 (* the statement is false of the variant that copies the slice header under the lock and
    iterates outside it ([conc_step false]): three live instances, the first one stopped while
    its callback runs — the second instance's callbacks never run, the third one's run twice *)
